@@ -104,14 +104,19 @@ def run(mod, argv=None):
     if new_viol:
         idx = new_viol[0]
         case, ob, detail = cases[idx], obs[idx], oracle_fail[idx]
+        orig = {"case": case, "observed": ob, "oracle": detail}
         if hasattr(mod, "shrink"):
             try:
                 case, ob, detail = mod.shrink(case, ob, detail)
+                # a shrunk case that has slid into a recorded finding's class no longer shows THIS violation
+                if hasattr(mod, "classify") and mod.classify(case, ob, detail) in known:
+                    case, ob, detail = orig["case"], orig["observed"], orig["oracle"]
             except Exception:
                 notes.append("shrink failed: " + traceback.format_exc()[-500:])
         path = vf.write_replay(pid, {"property": pid, "seed": seed, "tier": tier, "case": case, "observed": ob,
                                      "oracle": detail, "model_disagrees": idx in model_fail,
                                      "other_failing_cases": len(new_viol) - 1,
+                                     "before_shrinking": orig if orig["case"] is not case else None,
                                      "replay_cmd": "./check %s --replay <this file>" % pid})
         out_lines.append("VIOLATION property=%s replay=%s" % (pid, path))
         exit_code = 1
